@@ -212,12 +212,12 @@ def gen_layout(rng, idx):
             phys.append((d + (name,), li))
     others = []
     if rng.chance(0.8):
-        for d in {rng.choice(dirs) for _ in range(rng.randint(1, 2))}:
+        for d in sorted({rng.choice(dirs) for _ in range(rng.randint(1, 2))}):
             cid = L.add_blob(("@@ texte %d-%d ✓ héllo\n" % (idx, len(L.blobs))).encode("utf-8"))
             L.files[d + ("t.txt",)] = cid
         others.append("t.txt")
     if rng.chance(0.7):
-        for d in {rng.choice(dirs) for _ in range(rng.randint(1, 2))}:
+        for d in sorted({rng.choice(dirs) for _ in range(rng.randint(1, 2))}):
             cid = L.add_blob(b"\xff\xfe\x00bin" + bytes([idx % 251, len(L.blobs), 0x80, 0xc3]))
             L.files[d + ("u.bin",)] = cid
         others.append("u.bin")
@@ -501,8 +501,8 @@ def has_fuel(x):
 
 # ------------------------------------------------------------------ the check
 def fault_sets(run, rng, thorough):
-    ks = list(range(0, 40)) if thorough else sorted({rng.below(8), rng.below(14), rng.below(20), rng.below(26)})
-    sets = [[]] + [[k] for k in ks]
+    ks = list(range(0, 48)) if thorough else sorted({rng.below(8), rng.below(14), rng.below(20), rng.below(26)})
+    sets = [[k] for k in ks]
     if rng.chance(0.5):
         a = rng.below(12)
         sets.append([a, a + 1 + rng.below(6)])
@@ -533,14 +533,10 @@ def correspond(run, binary, layouts, root):
         lroot = os.path.join(root, f"L{L.idx}")
         os.makedirs(lroot)
         L.materialise(lroot)
-        base_calls = None
-        for s, mv in zip(fs, m):
-            vs, log, fresh, fixedvs, calls = mv
+        for mv in m:                            # the model drops the fault sets that never fire
+            s, (vs, log, fresh, fixedvs, calls) = mv
+            s = [int(k) for k in s]
             calls = int(calls)
-            if base_calls is None:
-                base_calls = calls
-            elif all(k >= base_calls for k in s):
-                continue                        # the fault never fires: same as the fault-free run
             mres = [conv_val(L, v) for v in vs]
             mlog = [conv_event(inv, e) for e in log]
             mfresh = [conv_val(L, v) for v in fresh]
@@ -591,9 +587,8 @@ def judge(run, L, s, mres, mlog, mfresh, mfixed, mcalls, o, failures, model_diff
         fail("an import operation panicked or answered a value of the wrong type", mres, o["results"])
         return
     # ---------------- SPEC-level judgement of the code's own behaviour
-    # which operations had a fault fire: split the code log per operation is not possible, so use
-    # the call counter: replay the code log and count calls per op via the model's structure is
-    # model-dependent; instead the harness answers the number of calls after each op.
+    # the harness answers the resolver-call counter after each operation: a fault k fired in
+    # operation i iff marks[i-1] <= k < marks[i]
     marks = o.get("marks") or []
     blob_by_path = {"/".join(p): L.blobs[c] for p, c in L.files.items()}
     # (1) load once
@@ -620,9 +615,8 @@ def judge(run, L, s, mres, mlog, mfresh, mfixed, mcalls, o, failures, model_diff
     # (3) resolution: the code's answers against the model's SPEC-proved answers
     want = {}
     for e in mlog:
-        if e[0] == "resolve" and not (e[3] == "err:EIo" and False):
+        if e[0] == "resolve":
             want.setdefault((e[1], e[2]), set()).add(e[3])
-    injected = 0
     for e in clog:
         if e[0] == "resolve":
             w = want.get((e[1], e[2]))
@@ -655,8 +649,9 @@ def judge(run, L, s, mres, mlog, mfresh, mfixed, mcalls, o, failures, model_diff
                 break
         model_diffs.append(d)
     if len(run.samples) < 8 and s and len(clog) > 8:
-        run.samples.append({"layout": case["layout"]["files"].keys().__len__(), "ops": L.ops[:3], "faults": s,
-                            "results": cres[:4], "log_len": len(clog)})
+        run.samples.append({"files": sorted(case["layout"]["files"]), "links": case["layout"]["links"],
+                            "libs": L.libs, "ops": L.ops[:len(L.ops) // 2], "faults": s,
+                            "results": cres, "log_head": clog[:6], "log_len": len(clog)})
 
 
 # ------------------------------------------------------------------ CLI search order
@@ -713,7 +708,7 @@ def clipath_check(run, binary, root, failures, model_diffs):
 
 def make_layouts(run):
     rng = run.rng.fork("layouts")
-    n = 2500 if run.tier == "thorough" else 420
+    n = 1500 if run.tier == "thorough" else 360
     return fixed_layouts() + [gen_layout(rng.fork(i), i + 1) for i in range(n)]
 
 
